@@ -108,12 +108,27 @@ Definition apply_spread_args (op : node) : bool :=
   | _ => false
   end.
 
+(** Each operand is evaluated once, for itself: two operands never share an injected temporary (that
+    would pass the value of one evaluation in the place of another one, which was omitted). *)
+Fixpoint has_dup_str (l : list string) : bool :=
+  match l with
+  | [] => false
+  | x :: r => existsb (String.eqb x) r || has_dup_str r
+  end.
+
+Definition operand_temps (vp : string) (args : list node) : list string :=
+  flat_map (fun a => match arg_expr a with
+                     | Some e => match is_temp_ident vp e with Some t => [t] | None => [] end
+                     | None => []
+                     end) args.
+
 Fixpoint shape_issues (vp : string) (n : node) : list string :=
   (match hook_call n with
    | Some (_, a0 :: rest) =>
        match arg_expr a0 with
        | Some op =>
            (if arg_is_spread a0 then ["spread-result"] else []) ++
+           (if has_dup_str (operand_temps vp rest) then ["operand-temporary-shared"] else []) ++
            match expected_of_operation op with
            | Some ex => if apply_spread_args op then ["apply-spread-args"] else match_args vp ex rest
            | None => ["unknown-operation"]
